@@ -452,7 +452,9 @@ func (a *analysis) names(np NamePair, mstruct *types.Struct, iface *types.Interf
 		if acc := decls[m.Name()+"Calls"]; acc != nil {
 			if obj, ok := c.Info.Defs[acc.Name].(*types.Func); ok {
 				sig := obj.Type().(*types.Signature)
-				if sig.Results().Len() != 1 || !types.Identical(sig.Results().At(0).Type(), types.NewSlice(rec)) {
+				// compared through index-based type keys: on a generic mock the accessor's receiver type parameters are
+				// different objects from the type declaration's
+				if sig.Results().Len() != 1 || TypeKey(sig.Results().At(0).Type()) != TypeKey(types.NewSlice(rec)) {
 					if len(c.TypeErrs) == 0 {
 						a.add("C04", "%s.%sCalls does not return the record slice type", np.Mock, m.Name())
 					}
